@@ -68,7 +68,10 @@ def analyse_disconnect_impls(f, rep):
                   "%s::peer_disconnected changes the shared containers only by keyed removal of its argument (bulk operations: %s)" % (ty, bulk), b.loc())
     # the same for the receive queue's own remove(key)
     for qb in [b2 for b2 in f.bodies if b2.j.get("name") == "remove" and fq.inner_name(f) in b2.path and b2.kind == "AssocFn"]:
-        ops = sorted({fn["name"] for k in pathq.scope(f, qb) for bb, t2, fn in k.calls() if fn and any(c_ in fn["path"] for c_ in ("HashMap", "BinaryHeap", "Vec"))})
+        # (reads - a length for a log line, a lookup - change nothing)
+        READS = ("len", "is_empty", "contains_key", "contains", "get", "iter", "keys", "values", "capacity", "peek")
+        ops = sorted({fn["name"] for k in pathq.scope(f, qb) for bb, t2, fn in k.calls() if fn and any(c_ in fn["path"] for c_ in ("HashMap", "BinaryHeap", "Vec"))
+                      and fn["name"] not in READS})
         rep.check(ops == ["remove"], "R16.4", "R16.4|queue-remove|forgets-only-that-peer",
                   "QueueInner::remove(key) only removes that key's stream (container operations: %s): the other peers' streams and queued wake-ups stay" % ops, qb.loc())
     return info
